@@ -223,6 +223,79 @@ def job_buffer_recorded(prog, res):
     res.need(R, 2)
 
 
+def context_copy_keeps_ownership(prog, res):
+    """T5 (ownership): ZSTD_copyDCtx copies the source context byte for byte up to a boundary field.  Every field inside the
+    copied range that says what the DESTINATION owns or how it was allocated - a field its destructor (ZSTD_freeDCtx /
+    ZSTD_clearDict) hands to a release routine, its allocator, its static size - must be written again after the copy on
+    every path to the exit: otherwise two contexts release one object and the destination's own objects leak."""
+    R = "T5c.context-copy-keeps-ownership"
+    f = prog.fn("ZSTD_copyDCtx")
+    rec = prog.records.get("ZSTD_DCtx_s")
+    cp = f.call_roots(("memcpy", "__builtin_memcpy", "ZSTD_memcpy"))
+    res.check(rec is not None and len(cp) == 1, R, "shape", f.loc, "one bulk copy", "ZSTD_copyDCtx changed shape (%d bulk copies)" % len(cp))
+    if rec is None or len(cp) != 1:
+        return
+    call = [c for c in walk(f.blocks[cp[0][0]]["el"][cp[0][1]]) if is_call(c, ("memcpy", "__builtin_memcpy", "ZSTD_memcpy"))][0]
+    order = [x["n"] for x in rec["fields"]]
+    bound = [y.get("f") for y in f.walk_deep(call["a"][2]) if y.get("k") == "mem" and y.get("f") in order]
+    whole = not bound
+    limit = min(order.index(b) for b in bound) if bound else len(order)
+    copied = set(order[:limit])
+    owners = {"customMem", "staticSize"}
+    for dn in ("ZSTD_freeDCtx", "ZSTD_clearDict"):
+        d = prog.fn(dn)
+        for b, i, c in d.calls():
+            if c.get("c") and ("free" in c["c"].lower()) and c.get("a"):
+                for a in c["a"][:1]:
+                    for y in walk(a):
+                        if y.get("k") == "mem" and y.get("f") in order:
+                            owners.add(y["f"])
+    need = sorted(owners & copied)
+    res.check(len(need) >= 4, R, "owner-fields-in-range", f.loc, "owner fields inside the copied range: %s" % ", ".join(need),
+              "owner fields of ZSTD_DCtx_s inside the copied range: %s (%s)" % (need, "whole object" if whole else "up to " + order[limit]))
+    for fld in need:
+        wr = f.find_roots(lambda x: x.get("k") == "asg" and x.get("op") == "=" and strip_casts(x["lhs"]).get("k") == "mem" and strip_casts(x["lhs"]).get("f") == fld)
+        ok = bool(wr) and f.must_pass(via_roots=wr, starts=[(cp[0][0], cp[0][1] + 1)])
+        res.check(ok, R, "ZSTD_copyDCtx:" + fld, f.loc, "dst->%s is re-established after the copy" % fld,
+                  "ZSTD_copyDCtx copies the source's `%s` into the destination and leaves it there: after ZSTD_DCtx_loadDictionary(src) + ZSTD_copyDCtx both "
+                  "contexts own one DDict (double free at the second ZSTD_freeDCtx), the destination's own dictionary leaks, a static destination forgets it is static" % fld)
+    res.need(R, 6)
+
+
+ALLOCATOR_WRITERS_OK = {
+    "ZSTD_copyDCtx": "puts the destination's own allocator back after the bulk copy (T5c.context-copy-keeps-ownership checks it)",
+    "ZSTDMT_serialState_reset": "fills the customMem of a ZSTD_CCtx_params value it is handed, not of an allocated object",
+}
+
+
+def allocator_fixed_at_construction(prog, res):
+    """T10 (who may write): the allocator recorded in an object (`customMem` / `cMem`) is what its blocks are released with.
+    It is written where the object is constructed (functions named *create* / *init*) and nowhere else: a later writer
+    makes blocks obtained from one allocator go to another one's free."""
+    R = "T10.allocator-fixed-at-construction"
+    n = 0
+    for f in prog.all_functions():
+        if not f.file.startswith(("lib/", "contrib/seekable_format/")):
+            continue
+        hits = []
+        for b, i, r in f.roots():
+            for x in walk(r):
+                if x.get("k") == "asg" and strip_casts(x["lhs"]).get("k") == "mem" and strip_casts(x["lhs"]).get("f") in ("customMem", "cMem"):
+                    hits.append(x.get("l"))
+                if is_call(x, ("memcpy", "__builtin_memcpy", "ZSTD_memcpy", "memmove")) and x.get("a") and \
+                        any(y.get("k") == "mem" and y.get("f") in ("customMem", "cMem") for y in walk(x["a"][0])):
+                    hits.append(x.get("l"))
+        if not hits:
+            continue
+        n += 1
+        low = f.name.lower()
+        ok = "create" in low or "init" in low or f.name in ALLOCATOR_WRITERS_OK
+        res.check(ok, R, f.name, f.loc, "constructor" if f.name not in ALLOCATOR_WRITERS_OK else ALLOCATOR_WRITERS_OK[f.name],
+                  "%s overwrites the allocator of an existing object (line %s): what the object already holds was obtained from the previous allocator and will be "
+                  "released through the new one (ZSTD_copyCCtx between contexts of two custom allocators: a block from A goes to B's free)" % (f.name, hits[0]))
+    res.need(R, 8)
+
+
 def run(tier):
     res = Result("C13", tier)
     tus, info = extract(["common", "compress", "decompress", "dictBuilder", "seekable", "legacy"])
@@ -249,6 +322,8 @@ def run(tier):
     job_buffer_recorded(prog, res)
     mt_resize_failure_atomic(prog, res)
     legacy_stale_sizes(prog, res)
+    context_copy_keeps_ownership(prog, res)
+    allocator_fixed_at_construction(prog, res)
     # the serial state's tables are freed with serialState->params.customMem: it must be recorded
     # before the tables are (re)allocated, else a failure in between frees with the wrong allocator
     sr = prog.fn("ZSTDMT_serialState_reset")
